@@ -104,6 +104,21 @@ EvalE(P, e, env, st) ==
       [] e.k = "sl" ->        \* s[i] : the backing array is a cell shared by every copy of the slice
             [v |-> st.cells[st.cells[env[e.s]].back][e.ix + 1], st |-> st]
       [] e.k = "deref" -> [v |-> st.cells[st.cells[env[e.p]].ptr], st |-> st]      \* *p
+      [] e.k = "vcall" ->     \* vsum(e1, ..., en) : 100 * n + the sum of the arguments
+            LET a == EvalArgs(P, e.args, env, st)
+                RECURSIVE Sum(_)
+                Sum(q) == IF q = <<>> THEN 0 ELSE Head(q) + Sum(Tail(q))
+                v == 100 * Len(a.vs) + Sum(a.vs)
+            IN IF ~Ok(a.st) THEN [v |-> 0, st |-> a.st] ELSE [v |-> v, st |-> Chk(a.st, v)]
+      [] e.k = "vspread" ->   \* vsum(s...) : the slice itself is passed
+            LET b == st.cells[st.cells[env[e.s]].back]
+                v == 300 + b[1] + b[2] + b[3]
+            IN [v |-> v, st |-> Chk(st, v)]
+      [] e.k = "fvcall" ->    \* h(e) where the variable h holds the function g
+            LET a == EvalArgs(P, e.args, env, st) IN
+            IF ~Ok(a.st) THEN [v |-> 0, st |-> a.st] ELSE
+            LET c == CallFn(P, "g", a.vs, a.st) IN [v |-> c.vs[1], st |-> c.st]
+      [] e.k = "chlen" -> [v |-> Len(st.cells[st.cells[env[e.s]].ch].buf), st |-> st]
       [] e.k = "cvar" -> [v |-> e.v, st |-> st]       \* a local constant: its value is part of the node
       [] e.k = "ufld" -> [v |-> st.cells[SBase(e.s, env) + (IF e.f = "a" THEN 0 ELSE 1)], st |-> st]      \* u.f
       [] e.k = "qfld" -> [v |-> st.cells[st.cells[env[e.p]].ptr + (IF e.f = "a" THEN 0 ELSE 1)], st |-> st] \* q.f, q a *T
@@ -171,6 +186,14 @@ EvalArgs(P, es, env, st) ==
     LET h == EvalE(P, Head(es), env, st)
         t == EvalArgs(P, Tail(es), env, h.st)
     IN [vs |-> <<h.v>> \o t.vs, st |-> t.st]
+
+\* the value stored in an interface variable by  var e interface{} = X  /  e = X :
+\* an int expression, a string expression, a COPY of a struct variable, or nil
+IfaceVal(P, s, env, st) ==
+    CASE s.form = "int" -> LET v == EvalE(P, s.e, env, st) IN [v |-> [dyn |-> "int", v |-> v.v], st |-> v.st]
+      [] s.form = "str" -> [v |-> [dyn |-> "str", v |-> EvalStr(s.src, env, st)], st |-> st]
+      [] s.form = "T"   -> LET b == SBase(s.from, env) IN [v |-> [dyn |-> "T", v |-> <<st.cells[b], st.cells[b + 1]>>], st |-> st]
+      [] s.form = "nil" -> [v |-> [dyn |-> "nil", v |-> 0], st |-> st]
 
 (* run deferred calls of the activation that is ending: ds last-registered      *)
 (* first.  A deferred call invoked while panicking may recover (direct = TRUE). *)
@@ -438,6 +461,93 @@ ExecS(P, s, env, st0, ctx) ==
             THEN LET st1 == Emit1([st EXCEPT !.recd = TRUE], <<"rec", st.pval>>) IN
                  IF s.setr THEN R(env, Store(st1, env["r"], st1.cells[env["r"]] + 100)) ELSE R(env, st1)
             ELSE R(env, Emit1(st, <<"norec">>))
+      [] s.k = "asgidx" ->    \* x, arr[x] = e1, e2  |  arr[x], x = e2, e1 : the index is evaluated before x changes
+            LET i  == st.cells[env[s.x]]
+                a  == EvalE(P, s.a, env, st)
+                b  == EvalE(P, s.b, env, a.st)
+                c  == IF i % 2 = 0 THEN Env0.a0 ELSE Env0.a1
+            IN R(env, IF Ok(b.st) THEN Store(Store(b.st, env[s.x], a.v), c, b.v) ELSE b.st)
+      [] s.k = "slswap" ->    \* s[i], s[j] = s[j], s[i]
+            LET bc == st.cells[env[s.s]].back
+                b  == st.cells[bc]
+            IN R(env, Store(st, bc, [b EXCEPT ![s.lo + 1] = b[s.hi + 1], ![s.hi + 1] = b[s.lo + 1]]))
+      [] s.k = "mkfv" ->      \* h := g  |  h := pick()   (pick returns g) : a variable holding a declared function
+            R(Bind(env, s.s, NewId(st)), Alloc(st, [fn |-> "g"]))
+      [] s.k = "mkgen" ->     \* c := mkctr(e) : a closure returned by a declared function, with its own counter
+            LET v == EvalE(P, s.e, env, st) IN
+            IF ~Ok(v.st) THEN R(env, v.st) ELSE
+            LET nc  == NewId(v.st)
+                st1 == Alloc(v.st, v.v)
+                clo == [body |-> << [k |-> "inc", x |-> "n", d |-> 1], [k |-> "ret", bare |-> FALSE, e |-> [k |-> "var", x |-> "n"]] >>,
+                        env |-> Bind(Env0, "n", nc), par |-> FALSE]
+            IN R(Bind(env, s.c, NewId(st1)), Alloc(st1, clo))
+      [] s.k = "imk" ->       \* var e interface{} = X
+            LET v == IfaceVal(P, s, env, st) IN
+            IF ~Ok(v.st) THEN R(env, v.st) ELSE R(Bind(env, s.s, NewId(v.st)), Alloc(v.st, v.v))
+      [] s.k = "iasg" ->      \* e = X
+            LET v == IfaceVal(P, s, env, st) IN
+            R(env, IF Ok(v.st) THEN Store(v.st, env[s.s], v.v) ELSE v.st)
+      [] s.k = "tysw" ->      \* switch v := e.(type) { case ...: print } : s.tys lists the types that have a clause
+            LET iv == st.cells[env[s.s]]
+                line == IF iv.dyn \in {s.tys[i] : i \in 1..Len(s.tys)}
+                        THEN (IF iv.dyn \in s.multi THEN <<"t", s.id, "multi">>
+                              ELSE CASE iv.dyn = "int" -> <<"t", s.id, "int", iv.v + 1>>
+                                     [] iv.dyn = "str" -> <<"t", s.id, "string", Len(iv.v)>>
+                                     [] iv.dyn = "T"   -> <<"t", s.id, "T", iv.v[1]>>
+                                     [] iv.dyn = "nil" -> <<"t", s.id, "nil">>)
+                        ELSE <<"t", s.id, "other">>
+            IN R(env, Emit1(st, line))
+      [] s.k = "tyas" ->      \* if v, ok := e.(X); ok { print(v) } else { print("no") }
+            LET iv == st.cells[env[s.s]] IN
+            R(env, Emit1(st, IF iv.dyn = s.ty
+                             THEN <<"a", s.id, CASE s.ty = "int" -> iv.v [] s.ty = "str" -> Len(iv.v) [] s.ty = "T" -> iv.v[2]>>
+                             ELSE <<"a", s.id, "no">>))
+      [] s.k = "tyas1" ->     \* x = e.(int) : a run-time fault when e does not hold an int
+            LET iv == st.cells[env[s.s]] IN
+            IF iv.dyn = "int" THEN R(env, Store(st, env[s.x], iv.v)) ELSE R(env, Panic(st, "fault"))
+      [] s.k = "mkch" ->      \* ch := make(chan int, 2)
+            LET oc == NewId(st)
+                st1 == Alloc(st, [buf |-> <<>>, closed |-> FALSE])
+            IN R(Bind(env, s.s, NewId(st1)), Alloc(st1, [ch |-> oc]))
+      [] s.k = "chsend" ->    \* ch <- e : a full channel would block for ever (program not emitted); a closed one faults
+            LET v  == EvalE(P, s.e, env, st)
+                oc == v.st.cells[env[s.s]].ch
+                o  == v.st.cells[oc]
+            IN IF ~Ok(v.st) THEN R(env, v.st)
+               ELSE IF o.closed THEN R(env, Panic(v.st, "fault"))
+               ELSE IF Len(o.buf) >= 2 THEN R(env, [v.st EXCEPT !.status = "fuel"])
+               ELSE R(env, Store(v.st, oc, [o EXCEPT !.buf = Append(@, v.v)]))
+      [] s.k = "chtrysend" -> \* select { case ch <- e: print("sent") default: print("full") }
+            LET v  == EvalE(P, s.e, env, st)
+                oc == v.st.cells[env[s.s]].ch
+                o  == v.st.cells[oc]
+            IN IF ~Ok(v.st) THEN R(env, v.st)
+               ELSE IF o.closed THEN R(env, Panic(v.st, "fault"))
+               ELSE IF Len(o.buf) >= 2 THEN R(env, Emit1(v.st, <<"c", s.id, "full">>))
+               ELSE R(env, Emit1(Store(v.st, oc, [o EXCEPT !.buf = Append(@, v.v)]), <<"c", s.id, "sent">>))
+      [] s.k = "chrecv" ->    \* v, ok := <-ch; print(v, ok) : an empty open channel would block for ever
+            LET oc == st.cells[env[s.s]].ch
+                o  == st.cells[oc]
+            IN IF o.buf # <<>> THEN R(env, Emit1(Store(st, oc, [o EXCEPT !.buf = Tail(@)]), <<"c", s.id, Head(o.buf), "true">>))
+               ELSE IF o.closed THEN R(env, Emit1(st, <<"c", s.id, 0, "false">>))
+               ELSE R(env, [st EXCEPT !.status = "fuel"])
+      [] s.k = "chtry" ->     \* select { case v := <-ch: print(v) default: print("empty") }
+            LET oc == st.cells[env[s.s]].ch
+                o  == st.cells[oc]
+            IN IF o.buf # <<>> THEN R(env, Emit1(Store(st, oc, [o EXCEPT !.buf = Tail(@)]), <<"c", s.id, Head(o.buf)>>))
+               ELSE IF o.closed THEN R(env, Emit1(st, <<"c", s.id, 0>>))
+               ELSE R(env, Emit1(st, <<"c", s.id, "empty">>))
+      [] s.k = "chclose" ->   \* close(ch) : closing twice faults
+            LET oc == st.cells[env[s.s]].ch
+                o  == st.cells[oc]
+            IN IF o.closed THEN R(env, Panic(st, "fault")) ELSE R(env, Store(st, oc, [o EXCEPT !.closed = TRUE]))
+      [] s.k = "chrange" ->   \* for v := range ch { print(v) } : ends when the channel is closed and drained
+            LET oc == st.cells[env[s.s]].ch
+                o  == st.cells[oc]
+                RECURSIVE Dr(_, _)
+                Dr(q, s0) == IF q = <<>> THEN s0 ELSE Dr(Tail(q), Emit1(s0, <<"c", s.id, Head(q)>>))
+            IN IF ~o.closed THEN R(env, [st EXCEPT !.status = "fuel"])
+               ELSE R(env, Dr(o.buf, Store(st, oc, [o EXCEPT !.buf = <<>>])))
       [] s.k = "cdef" -> R(env, st)      \* const k = v : uses carry the value
       [] s.k = "bdef" ->      \* b := condition
             LET c == EvalE(P, s.c, env, st) IN
